@@ -170,14 +170,18 @@ def build(scenarios, debug):
         if sc.get('uncaught') is not None:
             local_secret = sc['uncaught'] + ' in a local'   # noqa  (shows up among the frame's locals on debug pages)
             raise ValueError(sc['uncaught'])
-        kw = dict((k, sc[k]) for k in ('message', 'error_type') if sc.get(k) is not None)
+        kw = dict((k, sc[k]) for k in ('message', 'error_type', 'mimetype') if sc.get(k) is not None)
         if sc.get('code'):
             kw['code'] = sc['code']
         e = sc['cls'](sc.get('detail'), **kw)
         if sc['how'] == 'raise':
             raise e
         return e
-    return Application([('/err/<idx>', ep)], debug=debug)
+
+    def boom(x):
+        local_copy = x + ' (local)'   # noqa
+        raise ValueError('failing for ' + x)
+    return Application([('/err/<idx>', ep), ('/boom/<x>', boom)], debug=debug)
 
 
 def send(app, path, accept):
@@ -216,8 +220,13 @@ def check(run):
         for how in ('raise', 'return'):
             scenarios.append({'cls': c, 'how': how, 'name': c.__name__})
         scenarios.append({'cls': c, 'how': 'raise', 'name': c.__name__, 'code': 499 if c.code < 500 else 599})
-    base_n = len(scenarios)
     from clastic import errors
+    # errors constructed with a preset representation (mimetype=...): negotiation must still decide, and the
+    # Content-Type must agree with the body
+    for mt in ('application/json', 'text/html', 'application/xml'):
+        scenarios.append({'cls': errors.Conflict, 'how': 'raise', 'name': 'Conflict', 'mimetype': mt})
+        scenarios.append({'cls': errors.Gone, 'how': 'return', 'name': 'Gone', 'mimetype': mt, 'detail': 'preset ' + mt})
+    base_n = len(scenarios)
     for i, p in enumerate(PALETTE):
         for field in ('detail', 'message', 'error_type'):
             for cls in (errors.NotFound, errors.InternalServerError, errors.ImATeapot)[:(1 if quick else 3)]:
@@ -259,6 +268,9 @@ def check(run):
         for f in fmts:
             tid += 1
             recs.append(dict(record(False, idx, [{'r': f, 'q': 10}]), tid=tid))
+        for acc in ([{'r': 'image/png', 'q': 10}], [], [{'r': 'garbage', 'q': 10}]):
+            tid += 1
+            recs.append(dict(record(False, idx, acc), tid=tid))
     # (c) escaping: palette scenarios x formats x handlers
     for idx in range(base_n, len(scenarios)):
         sc = scenarios[idx]
@@ -274,6 +286,13 @@ def check(run):
         for f in ('text/html', 'application/json', 'text/plain'):
             tid += 1
             recs.append(dict(record(True, None, [{'r': f, 'q': 10}], path=u'/nowhere/' + p.replace('/', '_')), tid=tid))
+    for p in PALETTE[:12]:
+        for f in ('text/html', 'application/json', 'text/plain'):
+            for debug in (True, False):
+                tid += 1
+                r_ = record(debug, None, [{'r': f, 'q': 10}], path=u'/boom/' + p.replace('/', '_'))
+                r_['cls'] = 'InternalServerError'
+                recs.append(dict(r_, tid=tid))
     clean = [{k: v for k, v in r_.items() if not k.startswith('_')} for r_ in recs]
     results = tlc.run_sharded(spec('ErrorFmt_Trace.tla'), cfgpath('ErrorFmt_Trace.cfg'), clean, tag='ErrorFmt_Trace')
     acc_ids = set()
